@@ -122,3 +122,62 @@ Proof. rewrite (fft_correct m (pw w 4) _ w4_root). apply tab_ext. intros k Hk.
     rewrite pw_add, w_4kM, !pw_add. ring. }
   rewrite E1, E2, E3. ring. Qed.
 End Alg.
+
+(* ---- conjugate symmetry: why half of the evaluations suffice.  For any ring automorphism s that fixes the integers (complex
+        conjugation in C), evaluating an integer polynomial at s(x) gives s of its evaluation at x.  With s(w) = w^(2N-1) = w^-1 the point
+        w^(4(M-k-1)+3) is the image of w^(4k+1): the M values the half-complex transform stores determine the other M. ---- *)
+Section Conj.
+Variable R : Type.
+Variables (rO rI : R) (radd rmul rsub : R -> R -> R) (ropp : R -> R).
+Variable Rth : ring_theory rO rI radd rmul rsub ropp (@eq R).
+Add Ring RringConj : Rth.
+Notation "x + y" := (radd x y). Notation "x * y" := (rmul x y). Notation "- x" := (ropp x).
+Notation pw := (rpow R rI rmul).
+Notation Zr := (zr R rO rI radd rmul ropp).
+Notation sum := (rsum R rO radd).
+Notation evR := (ev R rO rI radd rmul ropp).
+Variable s : R -> R.
+Hypothesis s_add : forall x y, s (x + y) = s x + s y.
+Hypothesis s_mul : forall x y, s (x * y) = s x * s y.
+Hypothesis s_one : s rI = rI.
+
+Lemma s_zero : s rO = rO.
+Proof. assert (H : s rO + s rO = s rO) by (rewrite <- s_add; f_equal; ring).
+  transitivity (s rO + s rO + - s rO); [ring|]. rewrite H. ring. Qed.
+Lemma s_opp x : s (- x) = - s x.
+Proof. assert (H : s (- x) + s x = rO) by (rewrite <- s_add, <- s_zero; f_equal; ring).
+  transitivity (s (- x) + s x + - s x); [ring|]. rewrite H. ring. Qed.
+Lemma s_zr_pos p : s (Zr (Zpos p)) = Zr (Zpos p).
+Proof. induction p using Pos.peano_ind.
+  - rewrite (zr_1 R rO rI radd rmul rsub ropp Rth). exact s_one.
+  - replace (Zpos (Pos.succ p)) with (Zpos p + 1)%Z by lia.
+    rewrite (zr_add R rO rI radd rmul rsub ropp Rth), s_add, IHp, (zr_1 R rO rI radd rmul rsub ropp Rth), s_one. reflexivity. Qed.
+Lemma s_zr z : s (Zr z) = Zr z.
+Proof. destruct z as [|p|p].
+  - rewrite (zr_0 R rO rI radd rmul rsub ropp Rth). exact s_zero.
+  - apply s_zr_pos.
+  - replace (Zneg p) with (- Zpos p)%Z by reflexivity.
+    rewrite (zr_opp R rO rI radd rmul rsub ropp Rth), s_opp, s_zr_pos. reflexivity. Qed.
+Lemma s_pw x n : s (pw x n) = pw (s x) n.
+Proof. induction n as [|n IH]; cbn [rpow]; [exact s_one|]. rewrite s_mul, IH. reflexivity. Qed.
+Lemma s_sum n g : s (sum n g) = sum n (fun i => s (g i)).
+Proof. induction n as [|n IH]; cbn [rsum]; [exact s_zero|]. rewrite s_add, IH. reflexivity. Qed.
+
+Theorem conjugate_evaluation N x (f : vec) : evR N (s x) f = s (evR N x f).
+Proof. unfold ev. rewrite s_sum. apply (rsum_ext R rO radd). intros i _. rewrite s_mul, s_zr, s_pw. reflexivity. Qed.
+
+(* with s(w) = w^(2N-1), N = 2M = 2^(m+1): the point 4(M-k-1)+3 is the conjugate of the point 4k+1 *)
+Variable m : nat.
+Variable w : R.
+Hypothesis wN : pw w (2 ^ S m) = - rI.
+Hypothesis s_w : s w = pw w (2 * 2 ^ S m - 1).
+
+Theorem other_half_by_conjugation (f : vec) k : (k < 2 ^ m)%nat ->
+  evR (2 ^ S m) (pw w (4 * (2 ^ m - k - 1) + 3)) f = s (evR (2 ^ S m) (pw w (4 * k + 1)) f).
+Proof. intro Hk. rewrite <- conjugate_evaluation. f_equal.
+  rewrite s_pw, s_w, <- (pw_mul R rO rI radd rmul rsub ropp Rth).
+  assert (E : ((2 * 2 ^ S m - 1) * (4 * k + 1) = 2 * 2 ^ S m * (4 * k) + (4 * (2 ^ m - k - 1) + 3))%nat).
+  { rewrite (Nat.pow_succ_r' 2 m). nia. }
+  rewrite E, (pw_add R rO rI radd rmul rsub ropp Rth w (2 * 2 ^ S m * (4 * k))), (pw_mul R rO rI radd rmul rsub ropp Rth w (2 * 2 ^ S m)).
+  rewrite (w2N R rO rI radd rmul rsub ropp Rth m w wN), (pw_one R rO rI radd rmul rsub ropp Rth). ring. Qed.
+End Conj.
